@@ -414,9 +414,9 @@ def ref_ob(prop, lid, part, k0=3):
 
 def c11(tier, seed):
     obs = []
-    for lid in (REF_LISTS if tier == 'thorough' else ['N3', 'P2', 'F2', 'M1', 'N2']):
+    for lid in REF_LISTS + (['V3', 'V2', 'P1'] if tier == 'thorough' else []):
         for part in (1, 2, 3, 4):
-            obs.append(ref_ob('C11', lid, part, k0=(3 if tier == 'thorough' or part in (3, 4) else 2)))
+            obs.append(ref_ob('C11', lid, part, k0=3))
     # long trivially assignable / swappable runs (4 + 4n bytes, n = 0..15: includes 32 and 64 bytes)
     for part in (2, 4):
         o = ref_ob('C11', 'R1', part, k0=2)
@@ -440,7 +440,7 @@ def pool_elem(prop, lists, akinds=('ae', 'st-ne', 'prop-ne')):
 
 
 def c12(tier, seed):
-    return pool_elem('C12', ['F1', 'V1', 'V4', 'M1', 'N1', 'N2'] if tier == 'quick' else CORE + ['V4'])
+    return pool_elem('C12', CORE + ['V4'], akinds=('ae', 'st-ne', 'prop-ne') if tier == 'quick' else tuple(ALLOC_KINDS))
 
 
 def cmp_ob(prop, lid, part, domain=0, smax=None, kv=2):
@@ -521,7 +521,7 @@ def exc_ob(lid, op, akind, fl, eq):
 
 def c17(tier, seed):
     obs = []
-    lists = ['F1', 'V1', 'N1', 'N2'] + ([] if tier == 'quick' else ['P2', 'M1', 'N3', 'V2'])
+    lists = ['F1', 'V1', 'N1', 'N2', 'P2', 'M1', 'N3', 'V2'] + ([] if tier == 'quick' else ['P1', 'F2', 'V3', 'V4'])
     kinds = [('st-ne', '0', 0), ('st-eq', '0', 1), ('ae', 'AF_ALWAYS_EQUAL', 0), ('prop-ne', 'AF_POCCA|AF_POCMA|AF_POCS', 0)]
     if tier == 'thorough':
         kinds += [('pocca-ne', 'AF_POCCA', 0), ('pocma-ne', 'AF_POCMA', 0), ('prop-eq', 'AF_POCCA|AF_POCMA|AF_POCS', 1), ('soccc-ne', 'AF_SOCCC', 0)]
